@@ -15,6 +15,7 @@ from .interp import (
     Interp, Frame, Closure, BoundMethod, SymMethod, Coro, GenObj, StubObj, function_ast, is_repo_function,
     loops_in_order, _walk_same_scope,
 )
+from .values import LazyValue
 from .values import (
     set_term, ViewList,
     SV, SInt, SBool, SReal, SBytes, SStr, SSeq, SEnum, SOpaque, SObj, SymRecDict, Unsupported,
@@ -518,6 +519,11 @@ class Env:
             impl = self.sym_methods.get((c, name))
             if impl is not None:
                 return impl(it, obj, *args, **kwargs)
+        pytype = {"SInt": int, "SBool": bool, "SReal": float, "SStr": str}.get(type(obj).__name__)
+        if pytype is None and type(obj).__name__ == "SBytes":
+            pytype = bytearray if obj.mutable else bytes
+        if pytype is not None and not hasattr(pytype, name):
+            it.raise_exc(AttributeError, f"'{pytype.__name__}' object has no attribute '{name}'")
         raise Unsupported(f"method {type(obj).__name__}.{name} (no model)")
 
     def method(self, cls, name):
@@ -657,6 +663,22 @@ class Env:
             from .verify import contract_tag
 
             ctx.oblige(f"{contract_tag(it.top_contract) if it.top_contract else con.prop}/call-pre({con.target}).{f.__name__}", ops.truth_term(r))
+        dec = getattr(con, "decreases", None)
+        if fn is self.top_fn:
+            # a recursive use of the contract being proved (induction hypothesis of a lemma, or real recursion): sound
+            # only on strictly smaller arguments under a well-founded measure
+            from .verify import contract_tag
+
+            if dec is None:
+                raise Unsupported(f"recursive use of {con.target} by contract needs a `decreases` measure")
+            if isinstance(dec, staticmethod):
+                dec = dec.__func__
+            d_callee = eval_clause(it, dec, ns)
+            d_caller = eval_clause(it, dec, dict(it.entry_args))
+            ctx.oblige(
+                f"{contract_tag(it.top_contract)}/recursion.decreases",
+                z3.And(ops.int_term(d_callee) >= 0, ops.int_term(d_callee) < ops.int_term(d_caller)),
+            )
         # exceptional outcomes
         outcomes = ["ret"] + [c for c in con.raises]
         if len(outcomes) > 1 and not ctx.pure:
@@ -878,12 +900,18 @@ class Env:
             if not isinstance(y, SSeq):
                 raise Unsupported("yield inside a loop with invariant needs Contract.yielded_sort")
             y.term = ctx.fresh("h_yielded", y.term.sort())
-        if is_for:
+        if is_for and hasattr(seqv, "g_pick"):
+            ctx.ghost[idx_name] = seqv.g_pick(it)
+        elif is_for:
             i = ctx.fresh("h_" + idx_name, z3.IntSort())
             for c in seqv.g_constraints(i):
                 ctx.assume(c)
             ctx.ghost[idx_name] = ops.mk_int(i)
         # 3. assume invariant
+        # (what is known from here on usually suffices for the obligations of the arbitrary iteration: the discharger
+        # first tries them from this suffix of the path condition alone - proving from fewer hypotheses is sound)
+        prev_mark = getattr(ctx, "pc_mark", None)
+        ctx.pc_mark = len(ctx.pc)
         for f in inv.inv:
             r = eval_clause(it, f, ns_now())
             ctx.assume(ops.truth_term(r))
@@ -904,6 +932,7 @@ class Env:
             cont = it.truth(it.eval(node.test, frame))
         lkey = (con.target, con.__name__, ordinal)
         if not cont:
+            ctx.pc_mark = prev_mark
             kinds = self.loop_effects.get(lkey)
             if kinds:
                 # effects of the (cut) iterations are not in the trace of this exit path
@@ -921,6 +950,7 @@ class Env:
             it.exec_block(node.body, frame)
         except BreakEx:
             note_effects()
+            ctx.pc_mark = prev_mark
             return
         except ContinueEx:
             pass
@@ -946,10 +976,12 @@ class Env:
             for k, v in selfobj.fields.items():
                 if k in fields:
                     continue
+                if isinstance(head_fields.get(k), LazyValue) and head_fields[k].value is v:
+                    continue  # a lazily decided field was read: decided, not changed
                 if k in head_fields and head_fields[k] is not v and not same_value(head_fields[k], v):
                     raise Unsupported(f"loop {ordinal}: self.{k} changed but is not in the havoc set")
         for gk, gv in ctx.ghost.items():
-            if not isinstance(gk, str) or gk in ghost_havoc or gk in ("yielded", "n_yields", "trace", idx_name):
+            if not isinstance(gk, str) or gk in ghost_havoc or gk in ("yielded", "n_yields", "trace", idx_name) or gk in {l.index for l in con.loops.values()}:
                 continue
             hv = ghost_head.get(gk)
             cur = gv.term if isinstance(gv, (SBytes, SSeq, SArr)) else gv
@@ -1015,6 +1047,8 @@ class Env:
             return SeqView(SBytes(ops.bytes_term(iterable), False))
         if isinstance(iterable, StubObj) and hasattr(iterable, "g_init"):
             return iterable
+        if isinstance(iterable, (list, tuple)):
+            return ConcreteView(iterable)
         raise Unsupported(f"for-loop with invariant over {type(iterable).__name__}")
 
 
@@ -1026,6 +1060,33 @@ class Havocked(StubObj):
 
     def sym_getattr(self, it, name):
         raise Unsupported(f"use of {self.what}, which a callee's contract leaves unspecified")
+
+
+class ConcreteView(StubObj):
+    """iteration protocol of a for-loop with invariant over a CONCRETE list: the arbitrary iteration is at a
+    position chosen among all positions (a fork per position), the ghost index is a plain int"""
+
+    def __init__(self, items):
+        self.items = list(items)
+        self.v = self.items
+
+    def g_init(self):
+        return 0
+
+    def g_pick(self, it):
+        return it.ctx.choose(list(range(len(self.items) + 1)))
+
+    def g_constraints(self, g):
+        return []
+
+    def g_has_next(self, g):
+        return z3.BoolVal(z3.simplify(g).as_long() < len(self.items))
+
+    def g_item(self, it, g):
+        return self.items[g if isinstance(g, int) else z3.simplify(ops.int_term(g)).as_long()]
+
+    def g_advance(self, g):
+        return z3.simplify(g + 1)
 
 
 class SeqView(StubObj):
